@@ -746,6 +746,8 @@ def run_contract_job(job):
                 out['status'] = 'error'
                 out['detail'] = 'backend %s: voided by log message: %s' % (be, bad[0][:300])
                 continue
+            # wall time of the deciding cbmc process (symbolic execution + SAT/SMT solving); cbmc prints its own split only at verbosity >= 8
+            out['solver_s'] = round(dt, 2)
             for m in r['messages']:
                 mm = re.search(r'Runtime [Dd]ecision [Pp]rocedure: ([0-9.]+)s', m)
                 if mm:
